@@ -134,7 +134,7 @@ class RecordLoop:
         _DERIVED_KEYS["fx"] = fx
         self.path = path
         self.body = fx.bodies[path]
-        self.sy = S.Sym(fx, opaque=opaque, inline_mut=True)
+        self.sy = S.Sym(fx, opaque=opaque, inline_mut=True, thread_places=True)
         self.res = self.sy.eval_body(self.body)
         self.loop = None
         for key in self.sy.loop_order:
